@@ -19,6 +19,7 @@ import NanoVerif.Model.Sched
 import NanoVerif.Model.ColrSvg
 import NanoVerif.Model.Shape
 import NanoVerif.Model.ConfigFlow
+import NanoVerif.Model.ReuseSeq
 /-
 Correspondence driver.  One JSON object per input line: {"op": ..., ...}; one JSON object per
 output line.  Run: `lake env lean --run Driver.lean < ops.jsonl`.
@@ -267,6 +268,30 @@ def dispatch (op : String) (j : Json) : Except String Json := do
       let old ← getStrs (← field j "old")
       let groups ← (← getArr (← field j "groups")).mapM getStrs
       return obj [("order", jStrs (regroup old groups))]
+  | "migrate-seq" =>
+      -- the glyph cache over a sequence of PaintGlyphs; `between` is a table over (shape that the donor outline was drawn for, shape)
+      let tolv ← getQ (← field j "tol")
+      let shapes ← (← getArr (← field j "shapes")).mapM (fun sj => do
+        pure (⟨← getNat (← field sj "key"), ← getSPaint (← field sj "child")⟩ : ShapeIn))
+      let table ← (← getArr (← field j "between")).mapM (fun r => do
+        match (← getArr r) with
+        | [a, b, t] => do
+            let aff ← match t with
+              | .null => pure none
+              | x => do pure (some (← getAff x))
+            pure ((← getNat a), (← getNat b), aff)
+        | _ => .error "between row")
+      let step := fun (acc : MState × List Nat × List SPaint) (si : ShapeIn × Nat) =>
+        let (st, creator, ps) := acc
+        let (s, i) := si
+        let between : Nat → ShapeIn → Option Aff := fun d _ =>
+          match creator[d]? with
+          | some a => (table.find? (fun r => r.1 == a && r.2.1 == i)).bind (·.2.2)
+          | none => none
+        let (st', p) := migrateStep tolv between st s
+        (st', if st'.next > st.next then creator ++ [i] else creator, ps ++ [p])
+      let (st, _, ps) := shapes.zipIdx.foldl step (⟨[], 0⟩, [], [])
+      return obj [("paints", Json.arr (ps.map jSPaint).toArray), ("next", jI (Int.ofNat st.next))]
   | "masters-ok" =>
       let ms ← (← getArr (← field j "masters")).mapM getStrs
       return obj [("ok", Json.bool (mastersOk ms))]
